@@ -616,11 +616,13 @@ def _compose_qoperations_MProcess_State_for_States(
             ps.append(p_x)
 
     # normalize prob dist
+    ps_before_truncation = list(ps)
     if truncate and np.sum(ps) != 0:
         ps = ps / np.sum(ps)
 
     # calc rho_x(vec of State) after normalization
-    for Mx_rho, p_x in zip(Mx_rhos, ps):
+    # (each state is normalized by the trace of its own Mx_rho, not by the renormalized probability)
+    for Mx_rho, p_x, p_x_raw in zip(Mx_rhos, ps, ps_before_truncation):
         if p_x == 0:
             rho_x = np.zeros(elem2.vec.shape, dtype=elem2.vec.dtype)
             state = State(
@@ -629,7 +631,7 @@ def _compose_qoperations_MProcess_State_for_States(
                 is_physicality_required=False,
             )
         else:
-            rho_x = Mx_rho / p_x
+            rho_x = Mx_rho / p_x_raw
             state = State(
                 elem2.composite_system,
                 rho_x,
